@@ -4,13 +4,13 @@ import random
 from . import formats
 
 
-def gapped_rows(seqs, frac, seed, gapchar="-", equal=True):
+def gapped_rows(seqs, frac, seed, gapchar="-", equal=True, min_width=0):
     """Insert gap characters: equal=True gives equal-length rows (an 'alignment') in which about
     `frac` of all cells are gaps; equal=False sprinkles gaps independently per row."""
     rnd = random.Random(seed)
     if equal:
         L = max(len(s) for s in seqs)
-        width = max(L + 1, int(L / max(1e-9, 1.0 - frac)) + 1)
+        width = max(L + 1, int(L / max(1e-9, 1.0 - frac)) + 1, min_width)
         rows = []
         for s in seqs:
             pos = sorted(rnd.sample(range(width), len(s)))
@@ -41,7 +41,7 @@ def render_chunk(names, seqs, ch):
         frac = ch.get("gapfrac", 0.3) if gm != "none" else 0.0
         if frac <= 0 and len(set(len(s) for s in seqs)) > 1:
             frac = 0.01
-        rows = gapped_rows(seqs, frac, ch.get("seed", 0), "-", equal=True) if (frac > 0 or fmt != "fasta") else list(seqs)
+        rows = gapped_rows(seqs, frac, ch.get("seed", 0), "-", equal=True, min_width=ch.get("min_width", 0)) if (frac > 0 or fmt != "fasta") else list(seqs)
     elif gm == "random":
         rows = gapped_rows(seqs, min(0.9, ch.get("gapfrac", 0.3)), ch.get("seed", 0), "-", equal=False)
     else:
@@ -52,11 +52,11 @@ def render_chunk(names, seqs, ch):
         return formats.write_fasta(names, rows, width=ch.get("width", 60), eol=eol, trail=ch.get("trail", ""),
                                    blank_before=ch.get("blank", 0), lead_blank=ch.get("lead_blank", 0))
     if fmt == "msf":
-        return formats.write_msf(names, rows, kind=ch.get("kindletter", "P"), width=ch.get("width", 50) or 50,
+        return formats.write_msf(names, rows, kind=ch.get("kindletter", "P"), width=(len(rows[0]) if ch.get("unwrapped") else (ch.get("width", 50) or 50)),
                                  group=ch.get("group", 10), gapchar=gc if gc in ".-~" else ".", eol=eol,
                                  pileup=ch.get("pileup", True), ruler=ch.get("ruler", False))
     if fmt == "clu":
-        return formats.write_clustal(names, rows, width=ch.get("width", 60) or 60, eol=eol, cons=ch.get("cons", True),
+        return formats.write_clustal(names, rows, width=(len(rows[0]) if ch.get("unwrapped") else (ch.get("width", 60) or 60)), eol=eol, cons=ch.get("cons", True),
                                      counts=ch.get("counts", False), gapchar="-",
                                      header=ch.get("header", "CLUSTAL W (1.83) multiple sequence alignment"))
     raise ValueError(fmt)
